@@ -10,8 +10,16 @@ DRIVER = "drv_set"
 
 def build_harness(wd, prop):
     r = core.repo()
-    return core.compile_c(wd, "h_set", [os.path.join(core.HARNESS_DIR, "h_set.c"),
-                                         os.path.join(r, "src/set.c"), os.path.join(r, "src/common.c")])
+    srcs = [os.path.join(core.HARNESS_DIR, "h_set.c"), os.path.join(r, "src/set.c"), os.path.join(r, "src/common.c")]
+    path, log = core.compile_c(wd, "h_set", srcs)
+    if path is None:
+        # the structural audit walks the nodes through the fields of struct set_node; a tree whose
+        # representation was changed may not have them.  Everything C19 speaks about is still
+        # observed through the public functions, so the check goes on without the audit.
+        path2, log2 = core.compile_c(wd, "h_set", srcs, extra=["-DH_SET_NO_AUDIT"])
+        if path2 is not None:
+            return path2, ""
+    return path, log
 
 
 def harness_cmd(path, prop):
